@@ -24,6 +24,7 @@ From FB.Proofs Require Import FrameLaws CleanLaws RollbackLaws RollbackDirsMain.
 (* T1g: Model/BuildDirs.v and Model/CreatedFiles.v are equal to the translation of build_dirs.py / created_files.py
    (Gen/BookGen.v, regenerated on every run); a change of those sources that the model does not follow breaks this import *)
 From FB.Proofs Require BookGenLaws.
+From FB.Proofs Require CacheGenLaws.   (* T1g: the model routines are equal to the translation of the source (Gen/CacheGen.v) *)
 Import ListNotations.
 
 Theorem C02_rollback_state : forall cf nm vers svers root w w' e (P : path -> Prop),
